@@ -433,7 +433,7 @@ func main() {
 	runner.Main(&runner.Harness{
 		ID:          "C07",
 		Level:       "model_checking",
-		Rule:        "ClientHellos emitted by crypto/tls for the product of server names {none, a.test, 252 characters, punycode, upper case, sub-sub-domain} x ALPN lists {none,[h2],[h2,http/1.1],[255-byte id],[http/1.1]} x version ranges {1.0-1.3, 1.2, 1.3, 1.2-1.3, 1.0-1.1} x 3 cipher preference lists x 4 curve preference lists (one with a GREASE value), each also as the hello of the same client reconnecting after a full handshake (non-empty session_ticket extension up to TLS 1.2, pre_shared_key + psk_key_exchange_modes in TLS 1.3); each compared field by field (server name, ALPN, versions, cipher suites, curves, signature schemes, point formats) with crypto/tls's own view of the same bytes and through 5 sni/alpn matcher configurations; cipher-suite values other stacks send (renegotiation/fallback SCSV, GREASE, unknown) appended to the list with all lengths adjusted; single-byte mutations {00, FF, +1, -1} at every position of the hellos with default cipher/curve lists (all hellos in thorough), compared whenever crypto/tls still accepts them; proper prefixes (0..8, every 16th, last 8; all in thorough) must be undecided; all 255 other record types must be rejected",
+		Rule:        "ClientHellos emitted by crypto/tls for the product of server names {none, a.test, 252 characters, punycode, upper case, sub-sub-domain} x ALPN lists {none,[h2],[h2,http/1.1],[255-byte id],[http/1.1]} x version ranges {1.0-1.3, 1.2, 1.3, 1.2-1.3, 1.0-1.1} x 3 cipher preference lists x 4 curve preference lists (one with a GREASE value), each also as the hello of the same client reconnecting after a full handshake (non-empty session_ticket extension up to TLS 1.2, pre_shared_key + psk_key_exchange_modes in TLS 1.3); each compared field by field (server name, ALPN, versions, cipher suites, curves, signature schemes, point formats) with crypto/tls's own view of the same bytes and through 5 sni/alpn matcher configurations; cipher-suite values other stacks send (renegotiation/fallback SCSV, GREASE, unknown) appended to the list with all lengths adjusted; single-byte mutations {00, FF, +1, -1} at every position of the hellos with default cipher/curve lists (all hellos in thorough), compared whenever crypto/tls still accepts them; proper prefixes (0..8, every 16th, last 8; all in thorough) must be undecided; all 255 other record types must be rejected; every compared hello is also matched inside a connection (cx.Wrap, shared context) on which one of two standing hellos (SNI + TLS 1.2-1.3 / no SNI + TLS 1.0-1.1) was matched first, and {l4.tls.server_name} and {l4.tls.version} must describe the hello matched last",
 		Assumptions: []string{"resumption hellos come from one real handshake against crypto/tls's server with an Ed25519 certificate (TLS 1.2 ticket / TLS 1.3 PSK); their random parts differ from run to run, failures carry the exact record", "a ClientHello fragmented over several TLS records is not generated (crypto/tls clients never do)"},
 		Scenarios:   scenarios,
 		Run: func(tier string, scAny any, rep *runner.Report) {
